@@ -56,6 +56,18 @@ CHECKS["C02"] = dict(
     technique="SMT lexer lemmas for blanks/line ends/comments + z3 regex closure queries on the captured grammar; CrossHair-driven "
     "differential runs of the real constructor and parser on rewritten texts / packaged files", design="§2 C02", engine="smt+crosshair")
 
+CHECKS["C05"] = dict(
+    text=LEVEL_TEXT_A + ". The visitor harness keeps both Define values symbolic (any non-NaN float) through the real alias transformer and "
+         "parameter visitor; the expansion harness is a differential against the hand-expanded text over placements, use counts, "
+         "redefinitions, copied and conjugated tables.",
+    note=NOTE_A, technique="CrossHair symbolic execution of DecayModelAliasReplacement / DecayModelParamValueReplacement with symbolic "
+    "Define values; solver-driven differential runs of parse() on a text and its expansion", design="§2 C05", engine="crosshair")
+CHECKS["C03"] = dict(
+    text=LEVEL_TEXT_A + ". No symbolic data (names are dictionary keys): the solver closes the enumeration of statement orders, ChargeConj "
+         "orientations, source kinds, switch values, session histories, and of the whole EvtGen name table in a daughter slot.",
+    note=NOTE_A, technique="CrossHair-driven exhaustive enumeration of a statement-order family through the real parse(), oracle = the "
+    "conjugation rule of the statement; counter-examples replayed concretely", design="§2 C03", engine="crosshair")
+
 PENDING_REASON = "check not built yet in this session (planned, see DESIGN.md §2); not claimed until its quick command runs clean"
 NA = {
     "C20": "quantifies over process histories, interpreter starts and PYTHONHASHSEED values of code that must run untraced "
